@@ -100,6 +100,7 @@ type mAlloc struct {
 	DeletedEvents int
 	CreatedEvents int
 	Uncertain bool // a response write failed while this allocation was being changed
+	EndFirm   bool // End.Hi is an instant by which the removal was complete (a Refresh 0 success response): stalls do not extend it
 }
 
 type Model struct {
@@ -146,7 +147,10 @@ func (a *mAlloc) endLo() int64 {
 func (m *Model) endHi(a *mAlloc) int64 {
 	hi := m.widen(a.Deadline.Hi)
 	if a.End != nil {
-		eh := m.widen(a.End.Hi)
+		eh := a.End.Hi
+		if !a.EndFirm {
+			eh = m.widen(eh)
+		}
 		if eh < hi {
 			hi = eh
 		}
